@@ -889,6 +889,73 @@ func (c *Ctx) c02Stream(snap *load.FuncInfo) {
 	}
 	wn, rn := arrLen(wi, wl.Body()), arrLen(di, dp.Body())
 	r.Check(wn == 8 && rn == 8, "C02.N5", dp.Name(), "length prefix width agrees (8 bytes)", c.P.Pos(dp.Node().Pos()), "both use [8]byte", "the record length prefix does not have the same width on both sides")
+	// the reader accepts every length the writer can produce: the value read from the prefix only sizes the buffer
+	{
+		nLen := 0
+		var lenVars []types.Object
+		ast.Inspect(dp.Body(), func(n ast.Node) bool {
+			as, ok := n.(*ast.AssignStmt)
+			if ok && len(as.Lhs) == 1 && len(as.Rhs) == 1 {
+				if call := firstCall(as.Rhs[0]); call != nil {
+					if se, ok := ast.Unparen(call.Fun).(*ast.SelectorExpr); ok && se.Sel.Name == "Uint64" {
+						if in, ok := ast.Unparen(se.X).(*ast.SelectorExpr); ok {
+							if o := di.Uses[in.Sel]; o != nil && o.Pkg() != nil && o.Pkg().Path() == "encoding/binary" {
+								if id, ok := ast.Unparen(as.Lhs[0]).(*ast.Ident); ok {
+									if o := astx.Obj(di, id); o != nil {
+										if _, isBasic := o.Type().Underlying().(*types.Basic); isBasic {
+											lenVars = append(lenVars, o)
+										}
+									}
+								}
+							}
+						}
+					}
+				}
+			}
+			return true
+		})
+		bad := token.NoPos
+		ast.Inspect(dp.Body(), func(n ast.Node) bool {
+			be, ok := n.(*ast.BinaryExpr)
+			if !ok {
+				return true
+			}
+			switch be.Op {
+			case token.LSS, token.GTR, token.LEQ, token.GEQ, token.EQL, token.NEQ:
+			default:
+				return true
+			}
+			for _, side := range []ast.Expr{be.X, be.Y} {
+				ast.Inspect(side, func(m ast.Node) bool {
+					if id, ok := m.(*ast.Ident); ok {
+						for _, lv := range lenVars {
+							if astx.Obj(di, id) == lv {
+								bad = be.Pos()
+							}
+						}
+					}
+					if call, ok := m.(*ast.CallExpr); ok {
+						if se, ok := ast.Unparen(call.Fun).(*ast.SelectorExpr); ok && se.Sel.Name == "Uint64" {
+							bad = be.Pos()
+						}
+					}
+					return true
+				})
+			}
+			return true
+		})
+		for _, call := range astx.Calls(dp.Body(), false) {
+			if se, ok := ast.Unparen(call.Fun).(*ast.SelectorExpr); ok && se.Sel.Name == "Uint64" {
+				nLen++
+			}
+		}
+		pos := dp.Node().Pos()
+		if bad.IsValid() {
+			pos = bad
+		}
+		r.Check(!bad.IsValid() && nLen > 0, "C02.N5", dp.Name(), "the record length read from the prefix is not tested against a limit", c.P.Pos(pos), "it only sizes the buffer; writeLenPrefixed writes records of any size",
+			"decodeProtobuf rejects (or treats specially) records by their length while Persist writes records of any size: the state record of a large network exceeds any fixed limit, and Restore then refuses a snapshot its own process wrote — the node cannot restart and the compacted entries are lost to it")
+	}
 	// leading byte
 	firstWriteOK := false
 	pg := c.Graph(ps)
